@@ -217,6 +217,9 @@ func (r *Reconciler) reconcileConfiguration(ctx context.Context, config *configa
 
 func (r *Reconciler) updateConfigurationStatus(ctx context.Context, configuration *configapi.Configuration) error {
 	log.Debug(configuration.Status)
+	// Only the status is updated: the applied path values were not changed here, and writing back the copy read at the
+	// start of this reconciliation would overwrite values applied since.
+	configuration.Applied.Values = nil
 	err := r.configurations.UpdateStatus(ctx, configuration)
 	if err != nil {
 		if !errors.IsNotFound(err) && !errors.IsConflict(err) {
